@@ -73,6 +73,9 @@ def options(tier, seed):
                         if tier == "quick" and (B == 17 and (pref or nets)):
                             continue
                         out.append({"B": B, "prefixes": pref, "networks": nets, "reserved": rsv, "salt": salt})
+    # the two address families have their own host-bit counts
+    for b4, b6 in ((8, 0), (8, None), (0, 12), (17, 64), (None, 8), (12, 128)):
+        out.append({"B": b4, "B6": b6, "prefixes": None, "networks": None, "reserved": None, "salt": salts[0]})
     # option values that overlap between features: a string listed both as sensitive word and as AS
     # number, a sensitive word that is also a secret / a reserved addition / part of an address
     for words, asns in ((["seattle", "65001", "12"], None), (["hunter", "65001"], ["65001", "64999"]),
@@ -102,7 +105,7 @@ def fa(opt, pwd=False, ip=False, undo=False, word=False, asn=False):
             reserved_words=list(opt["reserved"]) if opt["reserved"] else None,
             preserve_prefixes=None if opt["prefixes"] is None else list(opt["prefixes"]),
             preserve_networks=None if opt["networks"] is None else list(opt["networks"]),
-            preserve_suffix_v4=opt["B"], preserve_suffix_v6=opt["B"])
+            preserve_suffix_v4=opt["B"], preserve_suffix_v6=opt.get("B6", opt["B"]))
 
 
 def ip_stage_direct(opt, undo, text):
@@ -110,7 +113,7 @@ def ip_stage_direct(opt, undo, text):
     (the fixed order of the statement), line by line."""
     from netconan import ip_anonymization as m
 
-    a6 = m.IpV6Anonymizer(opt["salt"], preserve_suffix=opt["B"])
+    a6 = m.IpV6Anonymizer(opt["salt"], preserve_suffix=opt.get("B6", opt["B"]))
     a4 = m.IpAnonymizer(opt["salt"],
                         None if opt["prefixes"] is None else list(opt["prefixes"]),
                         None if opt["networks"] is None else list(opt["networks"]),
